@@ -62,3 +62,7 @@ pub struct ObjectBinaryRepr {
     /// Binary size.
     pub size: usize,
 }
+
+/// Parse context of the value decoder, nameable by the verification harness (C06).
+#[cfg(feature = "verif")]
+pub use value::parser::ParseContext as VerifParseContext;
